@@ -118,10 +118,11 @@ Fixpoint unpack_n (tw w : N) (n : nat) (buf : list N) (pos : N) : outcome (list 
            Ok (v :: vs, buf2, pos2)
   end.
 
-(* bit_unpack(state, cursor, out): BITPACK_MASKS[w] panics for w > 64; width 0 fills zeros
-   and touches neither the cursor nor bit_pos *)
+(* bit_unpack(state, cursor, out): a width above 64 is an error (tested before BITPACK_MASKS[w] is
+   indexed since the repair 72f92a6f7; it was a panic before); width 0 fills zeros and touches
+   neither the cursor nor bit_pos *)
 Definition bit_unpack (tw w : N) (n : nat) (buf : list N) (pos : N) : outcome (list N * list N * N) :=
-  if 64 <? w then Panic
+  if 64 <? w then Err
   else if w =? 0 then Ok (repeat 0 n, buf, pos)
   else unpack_n tw w n buf pos.
 
